@@ -178,19 +178,45 @@ OID_ENC = Contract(
 NCOMP = 3
 
 
-def _record(ex, env):
+def _record_parts():
     import z3 as _z
-    comps, nts = [], []
+    comps, nts, phs = [], [], []
     for i in range(NCOMP):
         dflt = Obj('Default', {}, name='default%d' % i)
         eqd = _z.Bool('equalsDefault.%d' % i)
+        # the component as set by the user, and the placeholder that iteration puts there when it is not set (which
+        # may or may not count as a value: a record type without mandatory members does)
         comps.append(Obj('Component', {'isValue': _z.Bool('isValue.%d' % i)},
                          {'__eq__': (lambda e: (lambda ex2, self, other: e))(eqd)}, name='component%d' % i))
+        phs.append(Obj('Placeholder', {'isValue': _z.Bool('placeholderIsValue.%d' % i)},
+                       {'__eq__': (lambda e: (lambda ex2, self, other: e))(eqd)}, name='component%d' % i))
         nts.append(Obj('NamedType', {'isOptional': _z.Bool('isOptional.%d' % i), 'isDefaulted': _z.Bool('isDefaulted.%d' % i),
                                      'asn1Object': dflt, 'openType': None}, name='namedType%d' % i))
-    named = Obj('NamedTypes', {'__truthy__': True}, {'__getitem__': lambda ex2, self, i: nts[concrete_(i)]}, name='namedTypes')
+    return comps, nts, phs
+
+
+def _record(ex, env):
+    import z3 as _z
+    comps, nts, phs = _record_parts()
+    named = Obj('NamedTypes', {'__truthy__': True, 'namedTypes': Tup(list(nts))},
+                {'__getitem__': lambda ex2, self, i: nts[concrete_(i)]}, name='namedTypes')
+    is_set = [_z.Bool('isSet.%d' % i) for i in range(NCOMP)]
+
+    def get(ex2, self, idx, default=NOVALUE_, instantiate=True):
+        i = concrete_(idx)
+        if ex2.choose(is_set[i], 'set%d' % i):
+            return comps[i]
+        if instantiate is False or instantiate == False:     # noqa: E712  (concrete python bool from the call site)
+            return default
+        return phs[i]
+
+    def values(ex2, self):
+        return Tup([comps[i] if ex2.choose(is_set[i], 'set%d' % i) else phs[i] for i in range(NCOMP)], 'list')
     return Obj('Sequence', {'isInconsistent': False, 'componentType': named},
-               {'values': lambda ex2, self: Tup(list(comps), 'list')}, name='value')
+               {'values': values, 'getComponentByPosition': get}, name='value')
+
+
+from pyvc.core import NOVALUE as NOVALUE_
 
 
 def concrete_(i):
@@ -207,8 +233,16 @@ def _encode_component(ex, component, asn1Spec=None, **options):
     return SeqV(z, 'bytes')
 
 
+def _absent(i):
+    return '(isOptional%d and (not isSet%d or not isValue%d))' % (i, i, i)
+
+
 def _present(i):
-    return '(not (isOptional%d and not isValue%d) and not (isDefaulted%d and equalsDefault%d))' % (i, i, i, i)
+    return '(not %s and not (isDefaulted%d and equalsDefault%d))' % (_absent(i), i, i)
+
+
+_SYMS = dict({('%s%d' % (n, i)): __import__('z3').Bool('%s.%d' % (n, i)) for i in range(NCOMP)
+              for n in ('isOptional', 'isDefaulted', 'isValue', 'equalsDefault', 'isSet', 'placeholderIsValue')})
 
 
 SEQ_ENC = Contract(
@@ -217,17 +251,17 @@ SEQ_ENC = Contract(
     params=dict(self=PObj('SequenceEncoder', omitEmptyOptionals=PBool()), value=PDerived(_record), asn1Spec=PConst(None),
                 encodeFun=PConst(FnV(_encode_component, 'encodeFun')), options=POptions()),
     globals=dict({'chunk%d' % i: SeqV(__import__('z3').Const('chunk%d' % i, __import__('z3').SeqSort(__import__('z3').IntSort())), 'bytes') for i in range(NCOMP)},
-                 **{('%s%d' % (n, i)): __import__('z3').Bool('%s.%d' % (n, i)) for i in range(NCOMP)
-                    for n in ('isOptional', 'isDefaulted', 'isValue', 'equalsDefault')}),
+                 **_SYMS),
+    # assumed contract of SequenceAndSetBase.getComponentByPosition / values() (object model, A-OBJ; checked by the
+    # stand-ins histories / containers): the placeholder put into the slot of an unset OPTIONAL member is not a value
+    requires=['isOptional%d ==> not placeholderIsValue%d' % (i, i) for i in range(NCOMP)],
     ensures=[
-        # X.690 8.9 / 11.5: components in declaration order; an OPTIONAL component without a value and a DEFAULT component
-        # equal to its default are not encoded -- whether the default was set explicitly or left out
+        # X.690 8.9 / 11.5: components in declaration order; an OPTIONAL component that is not set (whatever placeholder
+        # iteration leaves in its slot) and a DEFAULT component equal to its default are not encoded
         ('members-in-order-omitting-absent-and-default',
          'result[0] == X.cat(' + ', '.join('(chunk%d if %s else X.empty())' % (i, _present(i)) for i in range(NCOMP)) + ')'),
         ('constructed', 'result[1] is True and result[2] is True')],
     external=['members-in-order-omitting-absent-and-default'])
-
-
 
 
 # ---- SingleItemEncoder.__call__: the fixed modes of the CER/DER subclasses override whatever the caller passes ----
